@@ -24,7 +24,7 @@ SPEC = {
         "correspondence harness/cmd/c12 vs Driver/C12.lean: op TRACE of every store, retrieve result, and the state of the key's slice of the cache after every scenario",
         "crash injection: SIGKILL at verifOp call sites (hook src/cache/c12_verif.go, call sites in dir_cache.go); crashes INSIDE os.RemoveAll / fs.RecursiveLink are emulated by performing their first k unlink/mkdir/link steps in sorted order before the kill",
         "modelled, not verified: Model/DirCache.lean; rename(2), link(2), unlink(2) atomic; archive/tar + gzip: an unclosed stream does not decompress to the end, a closed one reads back its entries",
-        "quick tier: most crashes are taken in-process by parking the goroutine that runs Store for ever (nothing it buffers is ever flushed or closed); 1 in 16 scenarios, every scenario of the thorough tier and every replay use a real SIGKILL",
+        "quick tier: most crashes are taken in-process by parking the goroutine that runs Store for ever (nothing it buffers is ever flushed or closed); 1 in 16 scenarios of the quick tier, 1 in 6 of the thorough tier and every replayed scenario use a real SIGKILL",
     ],
     "assumptions": [
         "a key is always stored with the same list of output names (stale temporaries come from stores of the same outputs)",
@@ -70,4 +70,11 @@ Measured quick-tier wall times (./check C12 quick): 118 s .. 1704 s; CPU (user+s
 is the shared lake lock (one correspond step alone waited 1535 s for it); the CPU figure is the stable one.  The
 60-90 s target is NOT met as measured; harness ~8-20 s, interpreted driver ~25 s, proof build ~10-20 s, three corpus
 replays each paying a driver start.
+
+Thorough tier.  First version: 25,112 scenarios, every crash a real SIGKILL child (~0.3 CPU-s each): its harness phase
+alone was still running after 28 min and was stopped.  Trimmed to 14,549 scenarios (all 104 shapes x 2 modes; crash
+points complete for 12 core shapes, sampled for the rest; real SIGKILL for 1 scenario in 3): exit 0, 21/21 incl.
+leanchecker, 14,566 cases, 0 disagreements, 103 oracle failures all in the two listed classes; 23 min 49 s wall,
+43 CPU-min (user 20 + sys 23, mostly process spawning) on the shared machine - over the ~15 min target.  The real-kill
+share has since been cut to 1 in 6; that configuration has NOT been timed yet.
 """
